@@ -29,7 +29,8 @@ EXPLANATION = (
     "C05 R5.2) pandapower decides from net.converged whether a step whose error it swallowed (continue_on_divergence) was "
     "calculated, and the output writer logs whatever the result tables hold, so the reset of net.converged and of the result "
     "tables must precede every call of pipeflow that can raise: a step without solution then never carries the previous "
-    "step's results. (R13.4, shared with C20 R20.4/R20.6) in a multi-energy loop exactly the member nets named by the "
+    "step's results. (R13.5) the multinet output-writer dispatcher passes the step's time step, pf_converged and ctrl_converged to every member "
+    "net's writer unchanged. (R13.4, shared with C20 R20.4/R20.6) in a multi-energy loop exactly the member nets named by the "
     "coupling controllers of a level are recalculated after it, and every net such a controller writes is named. Not decided: "
     "equality of logged results with a fresh run (runtime; rests on C12).")
 ASSUMPTIONS = ["pandapower's run_time_step catches ts_variables['errors'] and calls pf_not_converged, which re-raises unless "
@@ -253,4 +254,30 @@ def r13_4(run):
     r20_6(run)
 
 
-RULES = [("R13.1", r13_1), ("R13.2", r13_2), ("R13.3", r13_3), ("R13.4", r13_4)]
+def r13_5(run):
+    """what is logged for a step: the multinet output-writer dispatcher hands the step's verdicts (pf_converged, ctrl_converged)
+    and the time step to every member net's output writer unchanged -- a member net that was not recalculated in a diverged step
+    still carries results and a converged flag of the previous step, so a per-net re-interpretation of the verdict logs old
+    results as this step's"""
+    ix = run.index
+    f = ix.func(MTS + "._call_output_writer")
+    run.analysed(f)
+    ps = f.params()
+    _shape(len(ps) == 5, "_call_output_writer(multinet, time_step, pf_converged, ctrl_converged, ts_variables)")
+    r = ANF(ix, f, param_alias=dict(zip(ps, ("multinet", "time_step", "pf_converged", "ctrl_converged", "ts_variables")))).run()
+    cs = [c for c in r.calls() if c.fn[0] == "x" and c.fn[1].endswith("output_writer_routine")]
+    _shape(len(cs) >= 1, "_call_output_writer calls pandapower's output_writer_routine")
+    for i, c in enumerate(cs):
+        a_ = _bound(c, ("net", "time_step", "pf_converged", "ctrl_converged", "recycle_options"))
+        ok = c.loops and a_.get("time_step") == ("n", "time_step") and a_.get("pf_converged") == ("n", "pf_converged") \
+            and a_.get("ctrl_converged") == ("n", "ctrl_converged")
+        run.ob("multinet._call_output_writer|verdicts-passed-unchanged|%d" % i, bool(ok),
+               "every member net's output writer receives the step's time step, pf_converged and ctrl_converged unchanged",
+               run.where(f, c.node), detail="pf_converged=%s" % show(a_.get("pf_converged"))[:120] if a_.get("pf_converged") else None)
+        net_t = a_.get("net")
+        run.ob("multinet._call_output_writer|member-net|%d" % i, net_t is not None and contains(net_t, ("idx", ("n", "multinet"), (C("nets"),))),
+               "the writer is called for the member nets of the multinet", run.where(f, c.node))
+    run.floor(2)
+
+
+RULES = [("R13.1", r13_1), ("R13.2", r13_2), ("R13.3", r13_3), ("R13.4", r13_4), ("R13.5", r13_5)]
